@@ -22,6 +22,7 @@ func main() {
 		fmt.Fprintf(os.Stderr, "unknown property %q\n", *prop)
 		os.Exit(2)
 	}
+	currentTier = *tier
 	r := NewRun(*prop, *tier, *seed, *driver)
 	var rc *Case
 	if *replay != "" {
